@@ -274,3 +274,82 @@ func TestResourcesAsMap(t *testing.T) {
 		t.Fatalf("ResourceIDs has %d entries", len(ecs.ResourceIDs(w)))
 	}
 }
+
+type regPlain struct{ V int64 }
+type regRel struct {
+	ecs.RelationMarker
+	V int64
+}
+type regRel2 struct {
+	ecs.RelationMarker
+}
+type regLate struct{ V int32 }
+
+// A registration rejected on a locked world leaves every registry entry as it was: same types, same
+// IDs, same relation flags, whatever kind of component was registered last; also when it would have
+// been the first registration ever.
+func TestRejectedRegistrationLeavesRegistryUntouched(t *testing.T) {
+	orders := [][]int{{0, 1}, {1, 0}, {0, 1, 2}, {2, 0, 1}, {1}, {0}, {}}
+	for oi, order := range orders {
+		w := ecs.NewWorld(2)
+		var ids []ecs.ID
+		for _, k := range order {
+			switch k {
+			case 0:
+				ids = append(ids, ecs.ComponentID[regPlain](w))
+			case 1:
+				ids = append(ids, ecs.ComponentID[regRel](w))
+			case 2:
+				ids = append(ids, ecs.ComponentID[regRel2](w))
+			}
+		}
+		type entry struct {
+			tp  string
+			rel bool
+		}
+		snapshot := func() []entry {
+			var out []entry
+			for _, id := range ecs.ComponentIDs(w) {
+				info, ok := ecs.ComponentInfo(w, id)
+				if !ok {
+					t.Fatalf("order %d: ComponentInfo missing for id %d", oi, id.Index())
+				}
+				out = append(out, entry{info.Type.String(), info.IsRelation})
+			}
+			return out
+		}
+		before := snapshot()
+		q := ecs.NewUnsafeFilter(w).Query()
+		if !panics(func() { ecs.ComponentID[regLate](w) }) {
+			t.Fatalf("order %d: registration on a locked world did not panic", oi)
+		}
+		if !panics(func() { ecs.ComponentID[regLate](w) }) {
+			t.Fatalf("order %d: second registration attempt on a locked world did not panic", oi)
+		}
+		q.Close()
+		after := snapshot()
+		if fmt.Sprint(before) != fmt.Sprint(after) {
+			t.Fatalf("order %d: rejected registration changed the registry: before %v after %v", oi, before, after)
+		}
+		// the relation components still behave as relations, the plain one as plain
+		tg := w.NewEntity()
+		u := w.Unsafe()
+		for i, k := range order {
+			if k == 0 {
+				u.NewEntity(ids[i])
+				if !panics(func() { u.NewEntityRel([]ecs.ID{ids[i]}, ecs.RelID(ids[i], tg)) }) && len(order) == 1 {
+					// (with the archetype already present the library accepts and ignores the target: see DESIGN I.7)
+				}
+			} else {
+				e := u.NewEntityRel([]ecs.ID{ids[i]}, ecs.RelID(ids[i], tg))
+				if u.GetRelation(e, ids[i]) != tg {
+					t.Fatalf("order %d: relation component %d lost its target", oi, i)
+				}
+			}
+		}
+		late := ecs.ComponentID[regLate](w)
+		if int(late.Index()) != len(order) {
+			t.Fatalf("order %d: after the rejected registration the next id is %d, want %d", oi, late.Index(), len(order))
+		}
+	}
+}
